@@ -6,11 +6,12 @@
    as_euler (Bernardes-Viollet) is proved in the regular case for all sequences (C12_as_euler_regular) and at exact gimbal
    lock (C12_as_euler_gimbal); in the band 0 < |second angle - lock| <= 1e-7 the code's answer is approximate (not covered).
    align_vectors for one vector pair / the primary pair of the infinite-weight branch maps b onto a exactly (C12_align_single_pair,
-   C12_align_antiparallel).  NOT proved (decided by three-way correspondence implementation / scipy only, see C12.py): mean,
+   C12_align_antiparallel).  mean: sign invariance of the accumulated matrix and the mean of copies of one rotation (C12_mean_sign_invariant,
+   C12_mean_of_copies).  NOT proved (decided by three-way correspondence implementation / scipy only, see C12.py): general means (eigenvectors),
    align_vectors with several finite weights (SVD), from_matrix on non-orthogonal input. *)
 From MrVerif Require Import Base.Prelude Base.StarRing Model.Rotation Model.Euler
   Proofs.RotationProofs Proofs.RotationRealProofs Proofs.RotationPowProofs Proofs.EulerProofs Proofs.EulerAnglesProofs
-  Proofs.EulerGimbalProofs Proofs.AlignProofs.
+  Proofs.EulerGimbalProofs Proofs.AlignProofs Proofs.MeanProofs.
 From Coq Require Import Reals.
 
 (* _quaternion_to_matrix is the standard rotation matrix of q: M(q) v = vector part of q (v,0) q^*; and M(q) = M(-q) *)
@@ -153,3 +154,15 @@ Theorem C12_align_antiparallel_axis : forall a0 a1 a2 : R,
   dot3 RRing (0, a2, - a1)%R (a0, a1, a2) = 0%R /\ dot3 RRing (- a2, 0, a0)%R (a0, a1, a2) = 0%R /\ dot3 RRing (a1, - a0, 0)%R (a0, a1, a2) = 0%R.
 Proof. exact antiparallel_axis_orthogonal. Qed.
 Print Assumptions C12_align_antiparallel_axis.
+
+(* ---- mean: the code forms K = sum_i w_i q_i q_i^T and takes the eigenvector of the largest eigenvalue (torch.linalg.eigh: oracle).
+   K does not depend on the signs of the stored quaternions (q ~ -q), and for copies of one rotation (any signs, any weights) K = (sum w) q q^T:
+   K q = (sum w) |q|^2 q and K vanishes on the orthogonal complement of q, so with positive total weight the mean is that rotation *)
+Theorem C12_mean_sign_invariant : forall (R : StarRing) (s : list bool) (l : list (R * quat R)) a b, kmat R (flip R s l) a b = kmat R l a b.
+Proof. exact kmat_sign_invariant. Qed.
+Print Assumptions C12_mean_sign_invariant.
+Theorem C12_mean_of_copies : forall (R : StarRing) (q : quat R) (l : list (R * quat R)), all_pm R q l ->
+  (forall a, (a < 4)%nat -> kapply R l q a = kmul (kmul (wsum R l) (qdot R q q)) (qcomp R a q)) /\
+  (forall x a, qdot R q x = k0 -> kapply R l x a = k0).
+Proof. intros R q l H. split; [intros a Ha; exact (mean_identical_eigen R q l a H Ha)|intros x a Hx; exact (mean_identical_orthogonal R q l x a H Hx)]. Qed.
+Print Assumptions C12_mean_of_copies.
